@@ -89,6 +89,7 @@ func init() {
 					r.Unresolved("no field is accessed through sync/atomic")
 				}
 			}},
+			{ID: "C17.R20", Floor: 8, Doc: "no goroutine waits on a channel (bare receive, range over a channel) while it certainly holds a mutex (every function and function literal of the module)", Run: c17BlockingUnderLock},
 			{ID: "C17.R15", Floor: 100, Doc: "every mutex a function locks is unlocked again on every path to every exit (every function and function literal of the module)", Run: func(p *Program, r *Report) {
 				if lockBalance(p, r, func(fi *FuncInfo) bool { return true }) == 0 {
 					r.Unresolved("no function locks a mutex")
